@@ -200,7 +200,10 @@ def execute(case, ctx):
         for n in case['order']:
             pp.create_symbol(n, syms[n])
         try:
-            got = ('text', pp.resolve_symbols(lid, line))
+            with runner.time_limit(3):
+                got = ('text', pp.resolve_symbols(lid, line))
+        except runner.InProcessTimeout:
+            return Outcome([Finding('C09/timeout', {'line': line, 'symbols': syms})], True, ['layer:api', 'timeout'], 1)
         except (Exception, SystemExit) as e:
             got = ('rejected', type(e).__name__)
         detail = {'line': line, 'symbols': syms, 'expected': want, 'got': got}
